@@ -245,7 +245,7 @@ bool DAGraphImpl<GraphImpl>::isRooted() const
   }
 
   isRooted_ = seen;
-  return true;
+  return seen;
 }
 
 template<class GraphImpl>
